@@ -26,6 +26,7 @@ def handlers : List (String × (Json → Except String Json)) := [
   ("C14.serial", Qv.Drv.C14.serial),
   ("C15.history", Qv.Drv.C15.history),
   ("C11.prop", Qv.Drv.C11.prop),
+  ("C11.options", Qv.Drv.C11.optionsJ),
   ("C03.overclaims", Qv.Drv.C03.overclaimsJ),
   ("C05.tree", Qv.Drv.C05.tree),
   ("C09.ptrace", Qv.Drv.C09.ptraceJ),
